@@ -247,3 +247,12 @@ Proof.
   apply loopU_ext. intros a0 j _. now rewrite cnt_uint.
 Qed.
 End S.
+
+(* loopU coincides with the checked loop when every produced result is a sum (which typing guarantees) *)
+Lemma loopU_eq_loop G k : (forall a i, match G a i with Val (VL _) | Val (VR _) => True | Val _ => False | _ => True end) ->
+  forall i a, loopU G (S k) i a = loop G (S k) i a.
+Proof.
+  intros Hs. induction k; intros i a.
+  - cbn [loopU loop]. specialize (Hs a i). destruct (G a i) as [[| | |]| |]; try contradiction; reflexivity.
+  - rewrite loopU_step. cbn [loop]. specialize (Hs a i). destruct (G a i) as [[| | |]| |]; try contradiction; try reflexivity. apply IHk.
+Qed.
